@@ -157,6 +157,12 @@ func c01(c *Ctx) {
 	c05R1(c)
 	c01R10(c)
 	c01R11(c)
+	// shared rules that decide clauses this statement relies on: start-up keeps every stored binding
+	// whose interface is attached (C05.R8), only addresses in Deleting state are unassigned (C06.R3),
+	// and the collector never runs beside a request (write lock, C04.R2)
+	c05R8(c)
+	c06R3(c)
+	c04R2(c)
 }
 
 // R10: at start-up the pool decides what is idle only after the stored owners were restored.
